@@ -340,6 +340,12 @@ func (i *Interpreter) Exec(ctx context.Context, bs match.Bindings, props core.St
 	}()
 
 	v, err := RunProgram(o, p)
+	var x interface{}
+	if err == nil {
+		// Exporting the value can run code (a getter of the
+		// returned object), so it is part of the execution.
+		x, err = export(v)
+	}
 	cancel()
 
 	if err != nil {
@@ -348,8 +354,6 @@ func (i *Interpreter) Exec(ctx context.Context, bs match.Bindings, props core.St
 		}
 		return nil, err
 	}
-
-	x := v.Export()
 
 	var result match.Bindings
 	switch vv := x.(type) {
@@ -392,6 +396,21 @@ func canonicalize(x interface{}) (interface{}, error) {
 		return nil, err
 	}
 	return y, nil
+}
+
+// export converts the value of a program to Go data.  Code that runs
+// during the conversion can throw or be interrupted.
+func export(v goja.Value) (x interface{}, err error) {
+	defer func() {
+		if r := recover(); r != nil {
+			if e, is := r.(error); is {
+				err = e
+			} else {
+				err = fmt.Errorf("%s", r)
+			}
+		}
+	}()
+	return v.Export(), nil
 }
 
 func RunProgram(o *goja.Runtime, p *goja.Program) (v goja.Value, err error) {
